@@ -152,7 +152,20 @@ def check_main(prop, tier, seed, a):
         return harness_error(f'{len(errors)} task(s) failed inside the harness')
     if done == 0:
         return harness_error('no task completed')
+    if done < 0.5 * len(tasks):
+        # the dispatch deadline cut the batch short: something (hung runs, a grossly overloaded
+        # machine) makes the check far slower than it is sized for; a fraction of the planned
+        # exploration must not pass for the whole
+        return harness_error(f'only {done} of {len(tasks)} tasks completed within {dl:.0f}s')
     agg, findings, samples = cp.aggregate(results)
+    hung = agg['outcomes'].get('wall_hang', 0)
+    if hung and prop != 'C09':
+        # a simulated thread did not come back to a yield point (a blocking call or a loop the
+        # simulator does not control): these runs were not evaluated.  For C09 it is reported as a
+        # finding of its own (a thread that never finishes); for the other properties it is a
+        # harness limitation, never silence.
+        return harness_error(f'{hung} simulated run(s) hung outside the simulator\'s control '
+                             f'(a thread did not reach a yield point within {60}s wall clock)')
 
     # determinism self-test (harness error if it fails; never a violation)
     st_ok, st_msg, st_runs = True, 'skipped', 0
